@@ -75,7 +75,7 @@ def frames_of(step):
 
 # ------------------------------------------------------------------ the generic run
 def run(res, prop, props_v, monitor, quick_n=(110, 36), thorough_n=(1500, 60), racy=True, gen_filter=None,
-        extra_obligations=None, corpus_dir=None, nontrivial=None, translators=("broker",)):
+        extra_obligations=None, corpus_dir=None, nontrivial=None, translators=("broker",), focus=""):
     quick = res.tier == "quick"
     n_exact, steps = quick_n if quick else thorough_n
     t0 = time.time()
@@ -119,12 +119,19 @@ def run(res, prop, props_v, monitor, quick_n=(110, 36), thorough_n=(1500, 60), r
                     o["kind"] = "exact" if fn.endswith(".session") else "racy"
                     o["ended"] = True
                     (corpus_sessions if fn.endswith(".session") else corpus_racy).append(o)
-    ss, cr = brokerlib.gen_sessions(exe, res.seed, n_exact, steps, kind="exact")
+    ss, cr = brokerlib.gen_sessions(exe, res.seed, n_exact if not focus else n_exact - n_exact // 2, steps, kind="exact")
     crashes += cr
+    if focus:
+        # half of the sessions with the op mix biased towards the property's mechanism
+        ss2, cr1 = brokerlib.gen_sessions(exe, res.seed + 104729, n_exact // 2, steps, kind="exact", focus=focus)
+        for x in ss2:
+            x["id"] = x["id"] + "-" + focus
+        ss += ss2
+        crashes += cr1
     exact = corpus_sessions + [s for s in ss if s["ended"]]
     racy_sessions = list(corpus_racy)
     if racy:
-        rs, cr2 = brokerlib.gen_sessions(exe, res.seed + 7919, max(20, n_exact // 3), steps, kind="racy")
+        rs, cr2 = brokerlib.gen_sessions(exe, res.seed + 7919, max(20, n_exact // 3), steps, kind="racy", focus=focus)
         crashes += cr2
         racy_sessions += [s for s in rs if s["ended"]]
     # ---- model evaluation (exact sessions)
